@@ -42,7 +42,12 @@ func c14Start() *c14Worker {
 }
 
 // VerifH_C14_protocol: every sequence of <=3 Pause/Resume calls (matched or not) returns, pauses every worker and wakes them all.
-func VerifH_C14_protocol() {
+func VerifH_C14_protocol() { c14Protocol(3) }
+
+// VerifH_C14_protocol4: the same with four controller calls (thorough tier).
+func VerifH_C14_protocol4() { c14Protocol(4) }
+
+func c14Protocol(nOps int) {
 	_ = stats.Init() // native replay needs the stats singleton; the symbolic run stubs the stats package
 	nw := 1 + verifrt.Choice("workers-1", 2)
 	var ws []*c14Worker
@@ -50,7 +55,7 @@ func VerifH_C14_protocol() {
 		ws = append(ws, c14Start())
 	}
 	paused := false
-	for op := 0; op < 3; op++ {
+	for op := 0; op < nOps; op++ {
 		switch verifrt.Choice("op", 3) {
 		case 0:
 			Pause("test")
